@@ -159,6 +159,31 @@ class Stats:
 # ---------------------------------------------------------------------------
 # workers
 
+CASE_TIME_LIMIT = int(os.environ.get("VERIF_CASE_SECONDS", "600"))
+
+
+class CaseTimeout(Exception):
+    """One case ran longer than CASE_TIME_LIMIT seconds: the harness gives up on the whole check (exit 2, inconclusive)."""
+
+
+def _timed(prop, case):
+    """run_case under a wall-clock alarm: code under test that blocks for ever must not hang the check (it is no verdict either)."""
+    import signal
+
+    def on_alarm(_signum, _frame):
+        raise CaseTimeout(f"a case exceeded {CASE_TIME_LIMIT} s: {str(case)[:300]}")
+
+    try:
+        previous = signal.signal(signal.SIGALRM, on_alarm)
+    except ValueError:  # not in the main thread
+        return prop.run_case(case)
+    signal.alarm(CASE_TIME_LIMIT)
+    try:
+        return prop.run_case(case)
+    finally:
+        signal.alarm(0)
+        signal.signal(signal.SIGALRM, previous)
+
 
 def _hypothesis_shard(args: tuple[str, str, int, int, int]) -> Stats:
     prop_id, tier, seed, shard, examples = args
@@ -182,7 +207,7 @@ def _hypothesis_shard(args: tuple[str, str, int, int, int]) -> Stats:
     )
     @given(strat)
     def search(case: Any) -> None:
-        out = prop.run_case(case)
+        out = _timed(prop, case)
         stats.record(case, out, "hypothesis")
 
     search()
@@ -194,7 +219,7 @@ def _enum_shard(args: tuple[str, str, int, int]) -> Stats:
     prop = load_prop(prop_id)
     stats = Stats()
     for case in itertools.islice(prop.enumerate_cases(tier), shard, None, nshards):
-        out = prop.run_case(case)
+        out = _timed(prop, case)
         stats.record(case, out, "enumeration")
     return stats
 
